@@ -173,6 +173,7 @@ def run_property(propmod, analysis=None, tier='quick', write=True, quiet=False, 
         say(f'ANALYSIS-ERROR property={prop} {exc}')
         return 2, None, [], []
     ctx = Ctx(analysis, prop)
+    ctx.tier = tier
     for rule_id, title, fn in propmod.RULES:
         ctx.rule = rule_id
         try:
